@@ -11,6 +11,8 @@ use std::collections::{BTreeMap, BTreeSet};
 #[derive(Serialize, Deserialize, Clone, Debug, PartialEq)]
 pub enum Op {
     Set(String),
+    /// `set v1 or v2 or ...`: the first truthy value, else the last one
+    SetOr(Vec<String>),
     Unset(Vec<String>),
     SetByName(String, Option<String>),
     GetByName(String),
@@ -49,7 +51,13 @@ fn gen_names(rng: &mut Rng) -> Vec<String> {
 
 fn gen_op(rng: &mut Rng) -> Op {
     match rng.below(20) {
-        0 => Op::Set(rng.pick(&VALUES).to_string()),
+        0 => {
+            if rng.chance(1, 2) {
+                Op::Set(rng.pick(&VALUES).to_string())
+            } else {
+                Op::SetOr((0..2 + rng.usize(3)).map(|_| rng.pick(&["", "0", "false", "NO", "a", "two words", "False"]).to_string()).collect())
+            }
+        }
         1 | 2 => Op::Unset((0..1 + rng.usize(3)).map(|_| rng.pick(&NAMES).to_string()).collect()),
         3 | 4 | 5 | 6 => Op::SetByName(rng.pick(&NAMES).to_string(), if rng.chance(4, 5) { Some(rng.pick(&VALUES).to_string()) } else { None }),
         7 | 8 => Op::GetByName(rng.pick(&NAMES).to_string()),
@@ -95,6 +103,21 @@ fn run_case(case: &Case) -> Verdict {
         match op {
             Op::Set(v) => {
                 world.op("set", &[v.clone()], &Want::Val(v.clone()), &[v.clone()]);
+            }
+            Op::SetOr(vals) => {
+                let mut args: Vec<String> = vec![];
+                for (k, v) in vals.iter().enumerate() {
+                    if k > 0 {
+                        args.push(s("or"));
+                    }
+                    args.push(v.clone());
+                }
+                let falsy = |v: &String| {
+                    let l = v.to_lowercase();
+                    l.is_empty() || l == "0" || l == "false" || l == "no"
+                };
+                let want = vals.iter().find(|v| !falsy(v)).or(vals.last()).cloned().unwrap_or_default();
+                world.op("set", &args, &Want::Val(want), &args);
             }
             Op::Unset(names) => {
                 world.op("unset", names, &Want::None, names);
